@@ -22,6 +22,8 @@ pub mod c12;
 #[cfg(feature = "std")]
 pub mod c13;
 pub mod c14;
+#[cfg(feature = "std")]
+pub mod c17;
 pub mod c18;
 #[cfg(feature = "std")]
 pub mod c20;
@@ -83,6 +85,9 @@ pub fn replay_case(prop: &str, sub: &str, case: Value) -> Result<(), String> {
         "C18" => c18::replay(sub, case),
         #[cfg(feature = "std")]
         "C20" => c20::replay(sub, case),
+        // C17 is decided by the program-generation engine; its racing sub-check lives here
+        #[cfg(feature = "std")]
+        "C17" if sub == "racing-repeat-use-returns" => c17::replay(sub, case),
         // C19 is decided by the program-generation engine; its text-arguments sub-check lives here
         #[cfg(feature = "std")]
         "C19" if sub == "text-arguments" => text::replay(case, text::Oracle::Rendering),
@@ -321,6 +326,13 @@ pub fn variant_reports(ctx: &Ctx, variants: &[&str]) -> Vec<vcore::SubReport> {
 pub fn print_sub_reports(ctx: &Ctx) {
     if crate::variant() == "nostd-nomutex" {
         crate::model::NO_MUTEX.store(true, std::sync::atomic::Ordering::Relaxed);
+    }
+    #[cfg(feature = "std")]
+    if ctx.prop == "C17" {
+        // pulled by `progen C17` (vcore::sub_report_from)
+        let s = c17::sub_report(ctx);
+        println!("{}", serde_json::to_string(&s.to_json()).unwrap());
+        return;
     }
     #[cfg(feature = "std")]
     if ctx.prop == "C19" {
